@@ -1,5 +1,6 @@
-import CruxVerif.Model.Rt
+import CruxVerif.Model.Bridge
 import CruxVerif.Util.Sexp
+import CruxVerif.Util.Hex
 /-! Line protocol of the `rt` engine.
   case : `(direct CMD (ACTION*))` | `(core ((TAG CMD)*) (ACTION*))`
   observation : steps separated by ` | ` (see `showStepDirect` / `showStepCore`) -/
@@ -53,8 +54,14 @@ partial def parseCmd : Sexp → Option Cmd
   | .list [.atom "abortable", n, c] => do pure (.abortable (← n.nat?) (← parseCmd c))
   | _ => none
 
+/-- what an independent decoder makes of raw bytes: `?` = use the model's bincode decoder -/
+inductive Dec (α : Type) where
+  | model | err | val (a : α)
+
 inductive Action where
   | res (k : Nat) (v : Val) | drop (k : Nat) | abort (n : Nat) | poll | ev (tag : Nat) (v : Val)
+  | rawRes (k : Nat) (bytes : List Nat) (dec : Dec Val)
+  | rawEv (bytes : List Nat) (dec : Dec Ev)
 
 def parseAction : Sexp → Option Action
   | .list [.atom "res", k, v] => do pure (.res (← k.nat?) (← v.int?))
@@ -62,6 +69,15 @@ def parseAction : Sexp → Option Action
   | .list [.atom "abort", n] => n.nat?.map .abort
   | .list [.atom "poll"] => some .poll
   | .list [.atom "ev", t, v] => do pure (.ev (← t.nat?) (← v.int?))
+  | .list [.atom "rawres", k, .atom h, .atom d] => do
+      let dec ← if d == "?" then some Dec.model else if d == "err" then some Dec.err else d.toInt?.map Dec.val
+      pure (.rawRes (← k.nat?) (← ofHex h) dec)
+  | .list [.atom "rawev", .atom h, .atom d] => do
+      let dec ← if d == "?" then some Dec.model else if d == "err" then some Dec.err else
+        match d.splitOn ":" with
+        | [t, v] => do pure (Dec.val (⟨← t.toNat?, ← v.toInt?⟩ : Ev))
+        | _ => none
+      pure (.rawEv (← ofHex h) dec)
   | _ => none
 
 def showEff (e : Eff) : String :=
@@ -125,7 +141,7 @@ def stepDirect (d : Direct) : Action → Option (String × Direct)
       | some (reqs, w) => observeDirect "-" { d with w := w, reqs := reqs }
   | .abort n => observeDirect "-" { d with w := doAbort n d.w }
   | .poll => observeDirect "-" d
-  | .ev _ _ => none
+  | _ => none
 
 def runDirect (c : Cmd) (acts : List Action) : Option String := do
   let (cid, w) := instantiate {} c {}
@@ -149,7 +165,7 @@ structure CoreHost where
 def probeTag : Nat := 999
 
 def statsCore (k : Core) : String :=
-  s!"s{k.execTasks.len} q{k.w.execReady.length}.{k.execSpawn.length}.{k.requests.length}.{k.capEvents.length}"
+  s!"s{k.execTasks.len} q{k.w.execReady.length}.{k.w.execSpawn.length}.{k.w.coreEffects.length}.{k.w.coreEvents.length}"
 
 /-- after a call: the no-op probe event, then stats -/
 def afterCall (res : String) (effs : List Eff) (h : CoreHost) : Option (String × CoreHost) := do
@@ -177,9 +193,9 @@ def stepCore (h : CoreHost) : Action → Option (String × CoreHost)
       | none => some ("~", h)
       | some (reqs, w) => some ("~", { h with reqs := reqs, k := { h.k with w := w } })
   | .abort n => some ("~", { h with k := { h.k with w := doAbort n h.k.w } })
-  | .poll => none
+  | _ => none
 
-def runCore (prog : List (Nat × Cmd)) (acts : List Action) : Option String := do
+def runCore (prog : List (Nat × Cmd × List (List Instr))) (acts : List Action) : Option String := do
   let rec go (h : CoreHost) (acts : List Action) (acc : List String) : Option (List String × CoreHost) :=
     match acts with
     | [] => some (acc.reverse, h)
@@ -190,9 +206,85 @@ def runCore (prog : List (Nat × Cmd)) (acts : List Action) : Option String := d
   let (steps, h) ← go { k := { prog := prog } } acts []
   pure (String.intercalate " | " steps ++ " || LOG " ++ String.intercalate "," (h.k.log.map showEv) ++ anomalies h.k.w)
 
-def parseProg (xs : List Sexp) : Option (List (Nat × Cmd)) :=
+/-! ### Bridge hosts -/
+open M.Bridge in
+structure BridgeHost where
+  b : Bridge
+  ids : List Nat := []                 -- K ↦ id
+  latest : List (Nat × Nat) := []      -- id ↦ latest K issued under it
+
+def showKind : Resolve → String
+  | .never => "n" | .once _ => "o" | .many _ => "m" | .gone => "g"
+
+def showBReqs (reqs : List (Nat × Eff)) : String :=
+  "E[" ++ String.intercalate "," (reqs.map fun (id, e) => s!"{id}:{e.op.n}:{e.op.v}:{showKind e.res}") ++ "]"
+
+def BridgeHost.record (h : BridgeHost) (reqs : List (Nat × Eff)) : BridgeHost :=
+  reqs.foldl (fun h (id, _) =>
+    { h with latest := (id, h.ids.length) :: h.latest.filter (·.1 != id), ids := h.ids ++ [id] }) h
+
+def showBErr : M.Bridge.BridgeError → String
+  | .deserializeEvent => "err:deser-event" | .deserializeOutput => "err:deser-output"
+  | .never => "err:never" | .finished => "err:finished"
+
+def afterCallB (res : String) (reqs : List (Nat × Eff)) (h : BridgeHost) : Option (String × BridgeHost) := do
+  let h := h.record reqs
+  let (r, b) ← M.Bridge.processEvent h.b (some ⟨probeTag, 0⟩)
+  let preqs := match r with | .ok rs => rs | .error _ => []
+  let h := ({ h with b := b }).record preqs
+  let reg := String.intercalate "," (b.registry.toList.map fun (id, r) => s!"{id}:{showKind r}")
+  pure (s!"{res} {showBReqs reqs} P{showBReqs preqs} l{b.core.log.length} {statsCore b.core} R[{reg}]", h)
+
+def stepBridge (h : BridgeHost) : Action → Option (String × BridgeHost)
+  | .ev tag v => do
+      let (r, b) ← M.Bridge.processEvent h.b (some ⟨tag, v⟩)
+      match r with
+      | .ok reqs => afterCallB "ok" reqs { h with b := b }
+      | .error e => afterCallB (showBErr e) [] { h with b := b }
+  | .rawEv bytes dec => do
+      let d := match dec with | .model => M.Bridge.decodeEv bytes | .err => none | .val e => some e
+      let (r, b) ← M.Bridge.processEvent h.b d
+      match r with
+      | .ok reqs => afterCallB "ok" reqs { h with b := b }
+      | .error e => afterCallB (showBErr e) [] { h with b := b }
+  | .res k v => respond h k (some v)
+  | .rawRes k bytes dec =>
+      respond h k (match dec with | .model => M.Bridge.decodeVal bytes | .err => none | .val v => some v)
+  | .drop _ => some ("~", h)
+  | .abort n => some ("~", { h with b := { h.b with core := { h.b.core with w := doAbort n h.b.core.w } } })
+  | .poll => none
+where
+  respond (h : BridgeHost) (k : Nat) (decoded : Option Val) : Option (String × BridgeHost) :=
+    match h.ids[k]? with
+    | none => afterCallB "noreq" [] h
+    | some id =>
+      let live := (h.latest.find? (·.1 == id)).map (·.2) == some k && (h.b.registry.get? id).isSome
+      if !live then afterCallB "stale" [] h else
+      match M.Bridge.handleResponse h.b id decoded with
+      | none => none
+      | some (.ok reqs, b) => afterCallB "ok" reqs { h with b := b }
+      | some (.err e, b) => afterCallB (showBErr e) [] { h with b := b }
+      | some (.panic, b) => afterCallB "panic" [] { h with b := b }
+
+def runBridge (prog : List (Nat × Cmd × List (List Instr))) (acts : List Action) : Option String := do
+  let rec go (h : BridgeHost) (acts : List Action) (acc : List String) : Option (List String × BridgeHost) :=
+    match acts with
+    | [] => some (acc.reverse, h)
+    | a :: rest =>
+      match stepBridge h a with
+      | none => none
+      | some (s, h) => go h rest (s :: acc)
+  let (steps, h) ← go { b := { core := { prog := prog } } } acts []
+  pure (String.intercalate " | " steps ++ " || LOG " ++ String.intercalate "," (h.b.core.log.map showEv)
+    ++ anomalies h.b.core.w)
+
+def parseLegacy : Sexp → Option (List Instr)
+  | .list (.atom "legacy" :: is) => parseInstrs is
+  | _ => none
+
+def parseProg (xs : List Sexp) : Option (List (Nat × Cmd × List (List Instr))) :=
   xs.mapM fun
-    | .list [t, c] => do pure (← t.nat?, ← parseCmd c)
+    | .list (t :: c :: ls) => do pure (← t.nat?, ← parseCmd c, ← ls.mapM parseLegacy)
     | _ => none
 
 def model (line : String) : String :=
@@ -205,6 +297,12 @@ def model (line : String) : String :=
     match parseProg prog, acts.mapM parseAction with
     | some prog, some acts => (runCore prog acts).getD "fuel-or-bad-index"
     | _, _ => "bad-case"
+  | some (.list [.atom host, .list prog, .list acts]) =>
+    if host == "bridge" || host == "jbridge" then
+      match parseProg prog, acts.mapM parseAction with
+      | some prog, some acts => (runBridge prog acts).getD "fuel-or-bad-index"
+      | _, _ => "bad-case"
+    else "bad-case"
   | _ => "bad-case"
 
 end Driver.Rt
